@@ -367,7 +367,16 @@ impl<'s, M: Matcher, S: Sink> Core<'s, M, S> {
             }
             Some(line) => {
                 let range = Range::new(self.pos(), line.start());
-                self.set_pos(line.end());
+                if self.config.stop_on_nonmatch && !range.is_empty() {
+                    // The line found here is a non-matching line (since
+                    // matching is inverted) that follows matching lines,
+                    // so it is where the search must stop. Leave it for
+                    // the slow path, which reports any context it is
+                    // owed and then stops.
+                    self.set_pos(line.start());
+                } else {
+                    self.set_pos(line.end());
+                }
                 range
             }
         };
